@@ -114,4 +114,14 @@ def monC05ContinueComplete (inp : RunInput) (nTasks : Nat) (tr : List Ev) (exit 
 def monC05NotRecorded (nTasks : Nat) (tr : List Ev) (recorded : Name → Bool) : Bool :=
   (List.range nTasks).all fun t => !failedIn tr t || !recorded t
 
+/-! ### the pinned tree (before `fix: do not execute a task whose setup-task failed or is ignored`) -/
+
+/-- `Runner.select_task` as it was on the pinned tree: the second pass (a task with setup-tasks, after they were
+    processed) only asserted `run_status == 'run'` and went on to `_get_task_args` — `bad_deps` / `ignored_deps` were
+    not looked at again -/
+def selDecisionPinned (inp : RunInput) (n : Name) (nd : Node) : Sel :=
+  if nd.status = .none then selDecision inp n nd
+  else if nd.status ≠ .run ∨ inp.setup n = [] then .assertFail
+  else if inp.argsOk n then .go else .argsErr
+
 end DoitModel.Run
